@@ -51,6 +51,14 @@ Strip(ts) == IF Len(ts) > 1
 
 Fn(n) == "<fn:" \o n \o ">"
 
+\* the documented expansion (~ and $VAR) that the resolver applies to the words of an alias
+\* *value* - never to the arguments the user typed
+Exp(t) == CASE t = "~" -> "<HOME>"
+            [] t = "$VERIFVAR" -> "<VAR>"
+            [] t = "~/x y" -> "<HOME>/x y"
+            [] OTHER -> t
+ExpAll(ts) == [i \in 1..Len(ts) |-> Exp(ts[i])]
+
 \* value = [kind, toks, name]; returns the next expansion state
 StepOf(s) ==
   LET v == s.value IN
@@ -62,7 +70,7 @@ StepOf(s) ==
         toks == IF v.kind = "rc" THEN stripped.toks \o s.acc ELSE stripped.toks
         acc == IF v.kind = "rc" THEN <<>> ELSE s.acc
     IN IF toks = <<>> THEN [s EXCEPT !.phase = "done", !.out = acc, !.decs = decs2]
-       ELSE LET tok == Head(toks)  rest == Tail(toks) IN
+       ELSE LET tok == Exp(Head(toks))  rest == ExpAll(Tail(toks)) IN
             IF tok \in s.seen \/ ~Defined(tok) \/ (Defined(tok) /\ table[tok].kind = "dec")
             THEN [s EXCEPT !.phase = "done", !.out = <<tok>> \o rest \o acc, !.decs = decs2]
             ELSE [s EXCEPT !.seen = s.seen \cup {tok}, !.acc = rest \o acc, !.decs = decs2,
